@@ -137,6 +137,11 @@ var envTemplates = []string{
 	"(do (def %Pk (fn [& xs] (let [s (apply + xs)] (fn [y] (* y s))))) (let [h (%Pk 1 2 3)] [(h 2) ((%Pk) 5) (map h [1 2])]))",
 	"(do (def %Pe (fn [x] (try (if (> x 2) (throw x) x) (catch q (+ q 100))))) (%T (map %Pe [1 2 3 4])) (let [q 7] [(%Pe 9) q]))",
 	"(do (def %Pg (fn [] (let [s (gensym)] (symbol? s)))) (def %Pl (fn [n] (if (< n 1) true (and (%Pg) (%Pl (- n 1)))))) (%Pl 15))",
+	// a `def` inside a function body is local to that CALL — the name `scratch` is the same in every program on purpose
+	"(do (def %Pz (fn [] (do (def scratch (quote %Pz)) (%T scratch) (def %Pn (fn [n] (if (< n 1) scratch (%Pn (- n 1))))) (%Pn 40)))) [(%Pz) (%Pz)])",
+	"(do (def %Py (fn [x] (do (def scratch [x (quote %Py)]) (let [w (apply + (map (fn [i] i) [1 2 3 4 5 6 7 8 9]))] [scratch w])))) (map %Py [1 2 3]))",
+	// errors caught while other evaluations run
+	"(do (def %Pq (fn [n acc] (if (< n 1) acc (%Pq (- n 1) (try (throw (+ acc 1)) (catch e e)))))) (%T (%Pq 30 0)))",
 }
 
 // genEnvProgs: the k programs of one case
